@@ -99,30 +99,34 @@ def run(ctx):
                "handle_frame_stream_error_on_request_stream (C02-e)")
 
     # ---------------------------------------------------------------- client first frame
+    # rows are taken from what each path decided, not from how the result was taken apart (`.map_err(..)?.ok_or_else(..)?`
+    # and an explicit `match` give the same table): a path that tests the frame's type is a frame row; a path that does not
+    # is the Err row if it routes the reader's error, the None row if it raises a connection error itself
     b = ru.need(ctx, "C03-cli", "h3::client::stream::RequestStream::recv_response::{closure#0}")
     if b:
         ps = [p for p in ru.all_paths(ctx, "C03-cli", b, max_visits=1) if p.end == "return"]
+        fr = {}
         n_err = n_none = 0
         for p in ps:
-            ran = {k.rsplit("::", 1)[-1]: st for k, st, _ in p.adapter_closures()}
-            sh = p.ret_shape()
-            if sh == "Residual(call:map_err)" and not p.has_call("h3::qpack::decoder::decode_stateless"):
+            ft = [t for t in p.tests if t[3][0] == "discr" and set(t[2].split("|")) <= ALL and not dp.root_of(t[3])[0] in (None,) and dp.root_of(t[3])[0][0] != "param"]
+            if ft:
+                for lab in ft[0][2].split("|"):
+                    fr.setdefault(lab, []).append((p, dp.outcome(prog, p)))
+                continue
+            routed = p.calls("handle_frame_stream_error_on_request_stream") or pa.closure_calls(prog, p, "handle_frame_stream_error_on_request_stream")
+            fatal = p.calls("handle_connection_error_on_stream") or pa.closure_calls(prog, p, "handle_connection_error_on_stream")
+            if routed and not p.has_call("h3::qpack::decoder::decode_stateless"):
                 n_err += 1
-                cc = pa.closure_calls(prog, p, "handle_frame_stream_error_on_request_stream")
-                ctx.check(bool(cc), "C03-cli", b.key, "Err -> handle_frame_stream_error_on_request_stream",
-                          "an error reading the first frame is not routed through handle_frame_stream_error_on_request_stream", "")
-            if sh == "Residual(call:ok_or_else)":
+                ctx.check(not fatal, "C03-cli", b.key, "Err -> handle_frame_stream_error_on_request_stream",
+                          "an error reading the first frame is both routed and raised as a connection error", "")
+            elif fatal and not p.has_call("h3::qpack::decoder::decode_stateless"):
                 n_none += 1
                 codes = pa.path_codes(prog, p)
-                cc = pa.closure_calls(prog, p, "handle_connection_error_on_stream")
-                ctx.check(codes == {"H3_FRAME_UNEXPECTED"} and bool(cc), "C03-cli", b.key, "None -> connection error H3_FRAME_UNEXPECTED",
-                          "a response stream that ends before HEADERS yields codes %s (fatal: %s); expected connection error "
-                          "H3_FRAME_UNEXPECTED" % (sorted(codes), bool(cc)), "")
+                ctx.check(codes == {"H3_FRAME_UNEXPECTED"} and "Err" in p.ret_shape() + pa.vfmt(p.ret)[:0] or (codes == {"H3_FRAME_UNEXPECTED"} and p.ret_shape().startswith("Residual")),
+                          "C03-cli", b.key, "None -> connection error H3_FRAME_UNEXPECTED",
+                          "a response stream that ends before HEADERS yields codes %s returning %s; expected connection error "
+                          "H3_FRAME_UNEXPECTED" % (sorted(codes), p.ret_shape()), "")
         ctx.check(n_err >= 1 and n_none >= 1, "C03-cli", b.key, "Err and None rows present", "rows found: err=%d none=%d" % (n_err, n_none), "")
-        rows = rows_for(ctx, "C03-cli", b, lambda r: r[0] == "call" and r[1] == "core::option::Option::ok_or_else", max_visits=1)
-        fr = {}
-        for lab, lst in rows.items():
-            fr[lab] = lst
         expect(ctx, "C03-cli", b, fr, "Headers", lambda o, p: "decode_stateless" in o[4], "decode the field section")
         for v in sorted(ALL - {"Headers"}):
             expect(ctx, "C03-cli", b, fr, v, unexpected, "connection error H3_FRAME_UNEXPECTED")
